@@ -197,8 +197,17 @@ def ev(x, env, beta=None):
         v = _need_num(ev(x.e, env, beta))
         return N.neg(v) if x.op == "-" else v
     if isinstance(x, A.TBin):
-        l = _need_num(ev(x.l, env, beta))
-        r = _need_num(ev(x.r, env, beta))
+        lv, rv = ev(x.l, env, beta), ev(x.r, env, beta)
+        if isinstance(lv, RArray) and isinstance(rv, RArray) and x.op in ("+", "-"):
+            # elementwise sum/difference of two equally shaped numeric arrays (the only whole-array arithmetic generated)
+            if lv.shape != rv.shape or lv.symbolic() or rv.symbolic():
+                raise RefModelError("array arithmetic on unequal or symbolic arrays")
+            order = {"int": 0, "float": 1, "complex": 2}
+            vt = lv.vtype if order[lv.vtype] >= order[rv.vtype] else rv.vtype
+            rows = [[N.cast(vt, N.add(a, b, sub=(x.op == "-"))) for a, b in zip(ra, rb)] for ra, rb in zip(lv.rows, rv.rows)]
+            return RArray(vt, rows)
+        l = _need_num(lv)
+        r = _need_num(rv)
         if x.op == "+":
             return N.add(l, r)
         if x.op == "-":
